@@ -315,6 +315,10 @@ def conclude(pid, tier, seed, mod, agg):
     print("%s tier=%s seed=%d: %d executions, %d distinct non-trivial cases, wall %.1fs" % (
         pid, tier, seed, agg["evaluations"], agg["distinct_nontrivial"], agg["wall_s"]))
     print("  observed: %s" % obs)
+    if agg["errors"] or agg["incomplete_shards"] or agg["skipped"]:
+        print("  harness errors: %d (first: %s), unfinished shards: %d, cases skipped by budget: %d" % (
+            len(agg["errors"]), agg["errors"][0]["error"] if agg["errors"] else None,
+            len(agg["incomplete_shards"]), agg["skipped"]))
     if agg["maxima"]:
         print("  maxima: %s" % ", ".join("%s=%.3g" % kv for kv in sorted(agg["maxima"].items())))
     if lines:
